@@ -16,6 +16,11 @@ Streams
                 BatchNormalization in that layout; nothing is special-cased, a constructor that drops
                 the argument is a VIOLATION (data_format_respected, fold_equals_conv_bn, callable).
   unfold        small sequential / branched models of folded layers: unfold_model(m).predict == m.predict.
+                Second family "frozen": models mixing folded layers with stock / quantized plain weighted
+                layers (Conv2D, DepthwiseConv2D, Dense, QConv2D, QDense, BatchNormalization with and
+                without affine variables), layers / the whole model frozen by every public route, the
+                freeze state changed between the two unfoldings of one model object.  In both families
+                EVERY variable of EVERY layer of the unfolded model is judged (unfold_weights).
   to_folded     stock conv+BN models (sequential, branched, non-foldable variants):
                 convert_to_folded_model / model_quantize(enable_bn_folding=True): fold-site selection
                 and class substitution against the model; predictions against the property.
@@ -718,6 +723,29 @@ SMALLQ = [
 ]
 
 
+# layer types of a spec that own a kernel (Dense / QDense are applied to the 4-d tensor: a 1x1 convolution)
+CONVLIKE = ("conv", "dw", "qconv", "fconv", "fdw", "dense", "qdense")
+VARKEY = {"kernel": "kernel", "depthwise_kernel": "kernel", "bias": "bias", "gamma": "gamma", "beta": "beta",
+          "moving_mean": "mean", "moving_variance": "var"}
+
+
+def var_short_name(w):
+  return w.name.split("/")[-1].split(":")[0]
+
+
+def named_weight_list(lay, nd, iteration=-1):
+  """the arrays of a spec node in the order of THIS layer object's `weights` — the order depends on
+  `trainable`: a frozen folded layer lists `iteration` before the batch-norm variables"""
+  out = []
+  for w in lay.weights:
+    nm = var_short_name(w)
+    if nm == "iteration":
+      out.append(np.array(iteration, np.int64))
+    else:
+      out.append(np.asarray(nd[VARKEY[nm]]).reshape(tuple(w.shape)))
+  return out
+
+
 def conv_params(rng, cls, kh, kw, cm, same=False, sh=1, sw=1, use_bias=True, act="linear", qk=None, qb=None):
   return {"cls": cls, "kh": kh, "kw": kw, "sh": sh, "sw": sw, "dh": 1, "dw": 1, "same": same, "cm": cm,
           "use_bias": use_bias, "act": act, "qk": qk, "qb": qb}
@@ -730,10 +758,10 @@ def bn_params(rng, eps=EPS_EXACT, scale=True, center=True):
 def fill_weights(rng, node, cin):
   """exact-regime parameters with a small bit budget (two layers deep stays exact in float32)"""
   t = node["type"]
-  if t in ("conv", "dw", "qconv", "fconv", "fdw"):
+  if t in CONVLIKE:
     node["cin"] = cin
     co = node["cm"] if node["cls"] == "conv" else cin * node["cm"]
-    node["kernel"] = dy(rng, (node["kh"], node["kw"], cin, node["cm"]), 2, -2)
+    node["kernel"] = dy(rng, (node["kh"], node["kw"], cin, node["cm"]), node.get("kbits", 2), -2)
     node["bias"] = dy(rng, (co,), 2, -1)
     node["cout"] = co
   if t in ("bn", "fconv", "fdw"):
@@ -785,6 +813,160 @@ def templates_unfold(rng):
         F("g1", cls, "in", cm=cm, kh=1, kw=1, q=(None, qa)), F("g2", cls, "g1", cm=cm, q=(qa, qa)),
         F("g3", cls, "g2", cm=cm, kh=1, kw=1, q=(None, None))]))
   return out
+
+
+def folded_node(rng, name, cls, inp, **kw):
+  """a folded layer with random folding mode / quantizers / scale / center / use_bias"""
+  mode = ("ema_stats_folding", "batch_stats_folding")[int(rng.integers(2))]
+  r = rng.random()
+  qa, qb_ = SMALLQ[int(rng.integers(len(SMALLQ)))], SMALLQ[int(rng.integers(len(SMALLQ)))]
+  q = [None, None] if r < 0.3 else [qa, qb_] if r < 0.6 else [qa, None] if r < 0.8 else [None, qb_]
+  d = {"name": name, "type": "f" + cls, "inputs": [inp], "mode": mode, "kbits": 1,
+       "eps": EPS_EXACT, "scale": bool(rng.random() < 0.8), "center": bool(rng.random() < 0.7)}
+  d.update(conv_params(rng, cls, kw.pop("kh", 2), kw.pop("kw", 2), kw.pop("cm", 2),
+                       use_bias=bool(rng.random() < 0.6), qk=q[0], qb=q[1], **kw))
+  return d
+
+
+def templates_frozen(rng):
+  """models that MIX folded layers with plain weighted layers — stock Conv2D / DepthwiseConv2D / Dense /
+  BatchNormalization (with and without affine variables: center=False, scale=False owns non-trainable
+  variables only), QConv2D, QDense.  Every variable of every layer gets a random value (a fresh
+  initialisation differs); 1-bit kernels keep chains of four weighted layers exact in float32."""
+  F = lambda *a, **kw: folded_node(rng, *a, **kw)   # noqa: E731
+
+  def P(name, t, inp, **kw):   # plain weighted layer
+    cls = "dw" if t == "dw" else "conv"
+    d = {"name": name, "type": t, "inputs": [inp], "kbits": 1}
+    q = SMALLQ[int(rng.integers(len(SMALLQ)))] if t in ("qconv", "qdense") else None
+    d.update(conv_params(rng, cls, kw.pop("kh", 1), kw.pop("kw", 1), kw.pop("cm", 2),
+                         use_bias=kw.pop("use_bias", bool(rng.random() < 0.7)), qk=q,
+                         qb=(q if rng.random() < 0.5 else None), **kw))
+    return d
+
+  def B(name, inp, scale, center):
+    return {"name": name, "type": "bn", "inputs": [inp], "eps": EPS_EXACT, "scale": scale, "center": center}
+
+  def R(name, inp):
+    return {"name": name, "type": "relu", "inputs": [inp]}
+  rb = lambda: bool(rng.random() < 0.5)   # noqa: E731
+  out = []
+  out.append(("frz-seq", (5, 5, 2), [
+      F("f1", "conv", "in", cm=3), B("bn0", "f1", False, False), P("dn", "dense", "bn0", cm=3), R("r1", "dn"),
+      F("f2", "dw", "r1", cm=1)]))
+  out.append(("frz-branch", (5, 5, 2), [
+      F("fa", "conv", "in", cm=2), P("cb", "conv", "in", kh=2, kw=2, cm=2),
+      {"name": "add", "type": "add", "inputs": ["fa", "cb"]}, B("bn1", "add", rb(), rb()),
+      F("f3", "dw", "bn1", cm=2, sh=2, sw=2)]))
+  out.append(("frz-residual", (4, 4, 2), [
+      F("fd", "dw", "in", cm=1, same=True, kh=3, kw=3), {"name": "add", "type": "add", "inputs": ["fd", "in"]},
+      P("qc", "qconv", "add", cm=3), B("bnA", "qc", False, rb()), P("qd", "qdense", "bnA", cm=2)]))
+  out.append(("frz-plain-ends", (4, 4, 2), [
+      P("c0", "dw", "in", kh=2, kw=2, cm=1), F("f1", "conv", "c0", cm=2, kh=1, kw=1, act="relu"),
+      B("bn0", "f1", False, False), P("c2", "conv", "bn0", cm=2)]))
+  out.append(("frz-folded-only", (4, 4, 2), [
+      F("g1", "conv", "in", cm=2), F("g2", "conv", "g1", cm=2, kh=1, kw=1), F("g3", "dw", "g2", cm=1, kh=1, kw=1)]))
+  out.append(("frz-bn-around", (4, 4, 2), [
+      B("bnA", "in", False, False), F("f1", "dw", "bnA", cm=2), B("bnB", "f1", True, False),
+      F("f2", "conv", "bnB", cm=2, kh=1, kw=1)]))
+  return out
+
+
+FREEZE_PLANS = ("layers", "model", "layers-at-construction", "model-but-one", "none", "layers")
+
+
+def plan_freeze(rng, spec, plan):
+  """sets nd["trainable"] (what `layer.trainable` is when unfold_model runs) and nd["ctor_frozen"]"""
+  weighted = [nd for nd in spec if nd["type"] in CONVLIKE or nd["type"] == "bn"]
+  for nd in spec:
+    nd["trainable"] = True
+    nd["ctor_frozen"] = False
+    nd["init"] = [dy(rng, (3,), 3, 0) for _ in range(4)]
+  if plan in ("layers", "layers-at-construction"):
+    pick = [nd for nd in weighted if rng.random() < 0.5] or [weighted[int(rng.integers(len(weighted)))]]
+    for nd in pick:
+      nd["trainable"] = False
+      nd["ctor_frozen"] = plan == "layers-at-construction"
+  elif plan == "model":
+    for nd in spec:
+      nd["trainable"] = False
+  elif plan == "model-but-one":
+    keep = weighted[int(rng.integers(len(weighted)))]
+    for nd in spec:
+      nd["trainable"] = nd is keep
+
+
+def apply_freeze(m, spec, plan):
+  """the public routes: `model.trainable = ...` (recursive) and `layer.trainable = ...`"""
+  want = plan not in ("model", "model-but-one")
+  if m.trainable != want:
+    m.trainable = want
+  for nd in spec:
+    lay = m.get_layer(nd["name"])
+    if lay.trainable != nd["trainable"]:
+      lay.trainable = nd["trainable"]
+
+
+CANON = ("kernel", "bias", "gamma", "beta", "mean", "var")
+
+
+def judge_unfolded_layers(m, um, by):
+  """EVERY variable (trainable or not) of EVERY layer of the unfolded model against what the property
+  asks for: a folded layer -> the plain class with use_bias=True holding exactly [folded kernel, folded
+  bias] of the layer's CURRENT parameters (exact rationals, and get_folded_weights() bit for bit); any
+  other layer -> the same class with all its variables equal to the source's (spec values and the
+  source's get_weights()).  Returns (ok, why, config differences, canonical weights per layer, flags)."""
+  ok, why, cfg_bad, canon, flags = True, "", [], [], []
+
+  def fail(msg):
+    nonlocal ok, why
+    if ok:
+      ok, why = False, msg
+  if len(m.layers) != len(um.layers):
+    fail("number of layers %d -> %d" % (len(m.layers), len(um.layers)))
+  for l, ul in zip(m.layers, um.layers):
+    cn = l.__class__.__name__
+    nd = by.get(l.name)
+    uvars = {}
+    for w in ul.weights:
+      uvars[VARKEY.get(var_short_name(w), var_short_name(w))] = w.numpy()
+    canon.append([fr(uvars[k]) for k in CANON if k in uvars])
+    flags.append(bool(ul.trainable))
+    if cn in ("QConv2DBatchnorm", "QDepthwiseConv2DBatchnorm"):
+      want = "QConv2D" if cn == "QConv2DBatchnorm" else "QDepthwiseConv2D"
+      fw = [w.numpy() for w in l.get_folded_weights()]
+      cc = {"cls": nd["cls"], "cin": nd["cin"], "cm": nd["cm"], "eps": nd["eps"], "scale": nd["scale"],
+            "center": nd["center"], "use_bias": nd["use_bias"]}
+      exp = expected_folded(cc, nd)
+      if ul.__class__.__name__ != want or not ul.use_bias or sorted(uvars) != ["bias", "kernel"] or \
+         not (np.array_equal(uvars["kernel"], fw[0]) and np.array_equal(uvars["bias"], fw[1])):
+        fail("layer %s -> %s, weights differ from get_folded_weights()" % (l.name, ul.__class__.__name__))
+      elif exp is not None and (fr(uvars["kernel"]), fr(uvars["bias"])) != exp[:2]:
+        fail("layer %s: unfolded weights are not the fold of the layer's CURRENT parameters" % l.name)
+      bad, diff = check_unfolded_config(l, ul)
+      if bad:
+        cfg_bad.append((l.name, diff))
+    else:
+      if ul.__class__.__name__ != cn:
+        fail("layer %s changed class" % l.name)
+        continue
+      sw, uw = l.get_weights(), ul.get_weights()
+      if len(sw) != len(uw) or not all(np.array_equal(a, b) for a, b in zip(sw, uw)):
+        t = [i for i, (a, b) in enumerate(zip(sw, uw)) if not np.array_equal(a, b)]
+        fail("layer %s (%s, trainable=%s, %d trainable / %d non-trainable variables): variables %s of the unfolded "
+             "model's layer differ from the source layer's" % (
+                 l.name, cn, l.trainable, len(l.trainable_weights), len(l.non_trainable_weights),
+                 [var_short_name(ul.weights[i]) for i in t] or "count"))
+      elif nd is not None:
+        for k, v in uvars.items():
+          if k in nd and fr(v) != fr(nd[k]):
+            fail("layer %s: variable %s of the unfolded model is not the value the source layer was given" % (l.name, k))
+      if cn != "InputLayer" and ul.get_config() != l.get_config():
+        cfg_bad.append((l.name, "get_config() of a non-folded layer changed"))
+    # (unfold_model builds a NEW Input: name and flag of the input layer are not carried over)
+    if cn != "InputLayer" and bool(ul.trainable) != bool(l.trainable):
+      cfg_bad.append((l.name, {"trainable": (bool(l.trainable), bool(ul.trainable))}))
+  return ok, why, cfg_bad, canon, flags
 
 
 def node_weight_list(nd, iteration=-1):
@@ -854,10 +1036,19 @@ def build_keras(tf, qkeras, in_shape, spec, rng):
     ish = tuple(xs[0].shape[1:])
     nd["h"], nd["w"] = int(ish[0]), int(ish[1])
     fill_weights(rng, nd, int(ish[2]))
-    if t in ("conv", "dw", "qconv", "fconv", "fdw"):
+    ctor_kw = {"trainable": False} if nd.get("ctor_frozen") else {}
+    if t in ("dense", "qdense"):
+      kw = dict(use_bias=nd["use_bias"], name=nd["name"], activation=(None if nd["act"] == "linear" else nd["act"]),
+                **ctor_kw)
+      if t == "dense":
+        lay = L.Dense(nd["cm"], **kw)
+      else:
+        lay = qkeras.QDense(nd["cm"], kernel_quantizer=qstr(nd["qk"]), bias_quantizer=qstr(nd["qb"]), **kw)
+      y = lay(xs[0])
+    elif t in CONVLIKE:
       pad = "same" if nd["same"] else "valid"
       kw = dict(strides=(nd["sh"], nd["sw"]), padding=pad, use_bias=nd["use_bias"], name=nd["name"],
-                activation=(None if nd["act"] == "linear" else nd["act"]))
+                activation=(None if nd["act"] == "linear" else nd["act"]), **ctor_kw)
       if t == "conv":
         lay = L.Conv2D(nd["cm"], (nd["kh"], nd["kw"]), **kw)
       elif t == "dw":
@@ -875,7 +1066,7 @@ def build_keras(tf, qkeras, in_shape, spec, rng):
                                                  depthwise_quantizer=qstr(nd["qk"]), **kw, **bnkw)
       y = lay(xs[0])
     elif t == "bn":
-      lay = L.BatchNormalization(epsilon=nd["eps"], scale=nd["scale"], center=nd["center"], name=nd["name"])
+      lay = L.BatchNormalization(epsilon=nd["eps"], scale=nd["scale"], center=nd["center"], name=nd["name"], **ctor_kw)
       y = lay(xs[0])
     elif t == "relu":
       lay = L.ReLU(name=nd["name"])
@@ -897,9 +1088,11 @@ def assign_node(nd, lay):
   t = nd["type"]
   if t in ("conv", "qconv", "fconv"):
     lay.kernel.assign(nd["kernel"])
+  if t in ("dense", "qdense"):
+    lay.kernel.assign(nd["kernel"].reshape(tuple(lay.kernel.shape)))
   if t in ("dw", "fdw"):
     lay.depthwise_kernel.assign(nd["kernel"])
-  if t in ("conv", "dw", "qconv", "fconv", "fdw") and nd["use_bias"]:
+  if t in CONVLIKE and nd["use_bias"]:
     lay.bias.assign(nd["bias"])
   if t in ("bn", "fconv", "fdw"):
     bn = lay if t == "bn" else lay.batchnorm
@@ -924,7 +1117,11 @@ def lean_graph_line(tf, model, spec, x, run, mode="ema_stats_folding", hasq=()):
     nd = by[n]
     t = nd["type"]
     o = {"preds": [idx[i] for i in nd["inputs"]]}
-    if t in ("conv", "dw", "qconv", "fconv", "fdw"):
+    if "trainable" in nd:
+      o["trainable"] = bool(nd["trainable"])
+    if "init" in nd:
+      o["init"] = [enc(a) for a in nd["init"]]
+    if t in CONVLIKE:
       o.update({"cls": nd["cls"], "n": int(x.shape[0]), "h": nd["h"], "w": nd["w"], "cin": nd["cin"],
                 "kh": nd["kh"], "kw": nd["kw"], "sh": nd["sh"], "sw": nd["sw"], "dh": 1, "dw": 1,
                 "same": nd["same"], "cm": nd["cm"], "kernel": enc(nd["kernel"]),
@@ -942,7 +1139,7 @@ def lean_graph_line(tf, model, spec, x, run, mode="ema_stats_folding", hasq=()):
       o.update({"kind": "conv2d", "op": "conv"})
     elif t == "dw":
       o.update({"kind": "dwconv2d", "op": "conv"})
-    elif t == "qconv":
+    elif t in ("qconv", "dense", "qdense"):
       o.update({"kind": "other", "op": "conv"})
     elif t in ("fconv", "fdw"):
       o.update({"kind": "other", "op": "folded", "mode": nd["mode"]})
@@ -960,7 +1157,7 @@ def lean_graph_line(tf, model, spec, x, run, mode="ema_stats_folding", hasq=()):
 def spec_desc(tname, spec):
   out = []
   for nd in spec:
-    d = {k: v for k, v in nd.items() if not isinstance(v, np.ndarray)}
+    d = {k: v for k, v in nd.items() if not isinstance(v, np.ndarray) and k != "init"}
     for k in ("kernel", "bias", "gamma", "beta", "mean", "var"):
       if k in nd:
         d[k] = [float(v) for v in np.asarray(nd[k]).ravel()[:32]]
@@ -968,21 +1165,37 @@ def spec_desc(tname, spec):
   return {"template": tname, "layers": out}
 
 
-def stream_unfold(run, tf, qkeras, rng, tier):
+def stream_unfold(run, tf, qkeras, rng, tier, family="folded"):
   """models of folded layers; every model object is unfolded TWICE: as built, and again after all its
   parameters have been replaced through set_weights (layer-wise or model-wise, `iteration` unchanged) —
-  successive unfold_model calls on different models and on the same model in one process"""
+  successive unfold_model calls on different models and on the same model in one process.
+
+  family "frozen": models mixing folded layers with plain weighted layers, with layers / the whole model
+  frozen (`layer.trainable = False`, `trainable=False` at construction, `model.trainable = False`, one
+  layer re-enabled) or owning non-trainable variables only; between the two rounds the freeze state is
+  CHANGED on the same model object and every variable of every layer is replaced.  In both families
+  every variable of every layer of the unfolded model is judged (`unfold_weights`)."""
   from qkeras import bn_folding_utils
-  reps = 2 if tier == "quick" else 8
+  frozen = family == "frozen"
+  if frozen:
+    reps = 1 if tier == "quick" else 4
+  else:
+    reps = 2 if tier == "quick" else 8
   jobs = []
   for r in range(reps):
-    for (tname, ish, spec) in templates_unfold(rng):
+    shift = int(rng.integers(len(FREEZE_PLANS))) if frozen else 0
+    for ti, (tname, ish, spec) in enumerate(templates_frozen(rng) if frozen else templates_unfold(rng)):
       tf.keras.backend.clear_session()
       x = dy(rng, (2,) + ish, 2, -1)
+      plan = FREEZE_PLANS[(ti + shift) % len(FREEZE_PLANS)] if frozen else "none"
+      if frozen:
+        plan_freeze(rng, spec, plan)
       try:
         m = build_keras(tf, qkeras, ish, spec, rng)
+        if frozen:
+          apply_freeze(m, spec, plan)
       except Exception as e:  # pylint: disable=broad-except
-        run.case(("unfold-build-raises", len(jobs), tname))
+        run.case(("unfold-build-raises", family, len(jobs), tname))
         run.count("clause:callable:FAILS")
         run.violate("callable", {"stream": "unfold", "template": tname, "why": "raises"},
                     {"model": spec_desc(tname, spec), "error": "%s: %s" % (type(e).__name__, str(e)[:300])},
@@ -992,22 +1205,46 @@ def stream_unfold(run, tf, qkeras, rng, tier):
         if rnd == 2:
           # replace every parameter without a training step, then unfold the SAME model object again
           spec = [dict(nd) for nd in spec]
-          route = ("layer.set_weights", "model.set_weights")[(len(jobs) + r) % 2]
-          allw = []
-          for nd in spec:
-            fill_weights(rng, nd, nd.get("cin", 0))
-            if route == "layer.set_weights" and node_weight_list(nd):
-              m.get_layer(nd["name"]).set_weights(node_weight_list(nd))
-          if route == "model.set_weights":
+          if frozen:
+            # a different freeze state on the same objects, then EVERY variable of every layer replaced
+            plan = FREEZE_PLANS[(ti + shift + 1 + int(rng.integers(len(FREEZE_PLANS) - 1))) % len(FREEZE_PLANS)]
+            if plan == "layers-at-construction":
+              plan = "layers"
+            plan_freeze(rng, spec, plan)
+            apply_freeze(m, spec, plan)
+            route = ("layer.set_weights", "model.set_weights", "variable.assign")[(len(jobs) + r) % 3]
+            allw = []
+            for nd in spec:
+              fill_weights(rng, nd, nd.get("cin", nd.get("cout", 0)))
             by = {nd["name"]: nd for nd in spec}
             for l in m.layers:
-              allw += node_weight_list(by[l.name]) if l.name in by else []
-            m.set_weights(allw)
+              if l.name not in by:
+                continue
+              if route == "variable.assign":
+                assign_node(by[l.name], l)
+              elif route == "layer.set_weights" and l.weights:
+                l.set_weights(named_weight_list(l, by[l.name]))
+              else:
+                allw += named_weight_list(l, by[l.name])
+            if route == "model.set_weights":
+              m.set_weights(allw)
+          else:
+            route = ("layer.set_weights", "model.set_weights")[(len(jobs) + r) % 2]
+            allw = []
+            for nd in spec:
+              fill_weights(rng, nd, nd.get("cin", 0))
+              if route == "layer.set_weights" and node_weight_list(nd):
+                m.get_layer(nd["name"]).set_weights(node_weight_list(nd))
+            if route == "model.set_weights":
+              by = {nd["name"]: nd for nd in spec}
+              for l in m.layers:
+                allw += node_weight_list(by[l.name]) if l.name in by else []
+              m.set_weights(allw)
           x = dy(rng, (2,) + ish, 2, -1)
         try:
           y = m.predict(x, verbose=0)
         except Exception as e:  # pylint: disable=broad-except
-          run.case(("unfold-predict-raises", len(jobs), tname))
+          run.case(("unfold-predict-raises", family, len(jobs), tname))
           run.violate("callable", {"stream": "unfold", "template": tname, "why": "raises"},
                       {"model": spec_desc(tname, spec), "error": "%s: %s" % (type(e).__name__, str(e)[:300])},
                       mirrored=False)
@@ -1016,56 +1253,52 @@ def stream_unfold(run, tf, qkeras, rng, tier):
           um = bn_folding_utils.unfold_model(m)
           yu = um.predict(x, verbose=0)
         except Exception as e:  # pylint: disable=broad-except
-          run.case(("unfold-raises", len(jobs), tname))
+          run.case(("unfold-raises", family, len(jobs), tname))
           run.count("clause:conversion_runs:FAILS")
           run.violate("conversion_runs", {"stream": "unfold", "api": "unfold_model", "template": tname},
                       {"model": spec_desc(tname, spec), "error": "%s: %s" % (type(e).__name__, str(e)[:300])},
                       mirrored=False)
           break
         line, names = lean_graph_line(tf, m, spec, x, run)
-        # structure of the unfolded model: classes, use_bias, transferred weights, configuration
-        struct_ok = True
-        why = ""
-        cfg_bad = []
+        # structure of the unfolded model: classes, use_bias, ALL variables of ALL layers, configuration
         by = {nd["name"]: nd for nd in spec}
-        for l, ul in zip(m.layers, um.layers):
-          cn = l.__class__.__name__
-          if cn in ("QConv2DBatchnorm", "QDepthwiseConv2DBatchnorm"):
-            want = "QConv2D" if cn == "QConv2DBatchnorm" else "QDepthwiseConv2D"
-            fw = [w.numpy() for w in l.get_folded_weights()]
-            uw = ul.get_weights()
-            nd = by[l.name]
-            cc = {"cls": nd["cls"], "cin": nd["cin"], "cm": nd["cm"], "eps": nd["eps"], "scale": nd["scale"],
-                  "center": nd["center"], "use_bias": nd["use_bias"]}
-            exp = expected_folded(cc, nd)
-            if ul.__class__.__name__ != want or not ul.use_bias or len(uw) != 2 or \
-               not (np.array_equal(uw[0], fw[0]) and np.array_equal(uw[1], fw[1])):
-              struct_ok = False
-              why = "layer %s -> %s, weights differ from get_folded_weights()" % (l.name, ul.__class__.__name__)
-            elif exp is not None and (fr(uw[0]), fr(uw[1])) != exp[:2]:
-              struct_ok = False
-              why = "layer %s: unfolded weights are not the fold of the layer's CURRENT parameters" % l.name
-            bad, diff = check_unfolded_config(l, ul)
-            if bad:
-              cfg_bad.append((l.name, diff))
-          elif ul.__class__.__name__ != cn:
-            struct_ok = False
-            why = "layer %s changed class" % l.name
-        jobs.append((tname, spec, x, y, yu, line, struct_ok, why, rnd, cfg_bad))
+        struct_ok, why, cfg_bad, canon, flags = judge_unfolded_layers(m, um, by)
+        src_flags = [bool(l.trainable) for l in m.layers]
+        nvars = [(len(l.trainable_weights), len(l.non_trainable_weights)) for l in m.layers]
+        jobs.append((tname, spec, x, y, yu, line, struct_ok, why, rnd, cfg_bad, canon, flags, src_flags, nvars, plan, names))
   outs = core.run_driver("C15", [j[5] for j in jobs])
-  for ji, ((tname, spec, x, y, yu, line, struct_ok, why, rnd, cfg_bad), o) in enumerate(zip(jobs, outs)):
-    run.case(("unfold", ji), sample={"stream": "unfold", "model": spec_desc(tname, spec)} if ji == 0 else None)
+  for ji, ((tname, spec, x, y, yu, line, struct_ok, why, rnd, cfg_bad, canon, flags, src_flags, nvars, plan, names), o) in \
+      enumerate(zip(jobs, outs)):
+    run.case(("unfold", family, ji), sample={"stream": "unfold", "model": spec_desc(tname, spec)} if ji == 0 else None)
     run.count("unfold:%s:round%d" % (tname, rnd))
+    if frozen:
+      run.count("unfold:freeze-plan:%s" % plan)
     for nd in spec:
       if nd["type"] in ("fconv", "fdw"):
         run.count("unfold:layer-quantizers:kernel=%s,bias=%s" % ("q" if nd["qk"] else "None", "q" if nd["qb"] else "None"))
+    for (nt, nn), fl in zip(nvars, src_flags):
+      if nt + nn:
+        run.count("unfold:layer-variables:%s" % ("trainable-only" if nn == 0 else "mixed" if nt else
+                                                 "non-trainable-only(frozen)" if not fl else "non-trainable-only(own)"))
     y0, yunf = dec(o["y0"]), dec(o["y_unf"])
-    run.compared += 2
+    run.compared += 4
     if fr(y) != y0:
       run.disagree("unfold:predict", spec_desc(tname, spec), [float(v) for v in y.ravel()[:16]], [float(v) for v in (y0 or [])[:16]])
-    if yunf != y0:
-      run.disagree("unfold:model_side", spec_desc(tname, spec), "y_unf", "y0")
+    if yunf != y0 or dec(o["y_unf_layers"]) != y0:
+      run.disagree("unfold:model_side", spec_desc(tname, spec), "y_unf / y_unf_layers", "y0")
+    # the model's unfold_model over model.layers (clone + transfer, trainable flags, arbitrary fresh
+    # variables): every variable of every layer, and the flags
+    mw = [[dec(w) for w in lw] for lw in o["unf_weights"]] if o.get("unf_weights") is not None else None
+    if mw != canon:
+      bad = [i for i in range(len(canon))] if mw is None or len(mw) != len(canon) else \
+            [i for i in range(len(canon)) if mw[i] != canon[i]]
+      run.disagree("unfold:layer_weights", spec_desc(tname, spec), {"layers whose variables differ": bad}, "unf_weights")
+    mt = o.get("unf_trainable") or []
+    if len(mt) != len(src_flags) or any(a != b for a, b, n in zip(mt, src_flags, names) if n != "in"):
+      run.disagree("unfold:trainable_flags", spec_desc(tname, spec), src_flags, o.get("unf_trainable"))
     key = {"stream": "unfold", "template": tname, "round": "as-built" if rnd == 1 else "after-set_weights"}
+    if frozen:
+      key["freeze"] = plan
     if not np.array_equal(y, yu):
       t = worst_index(y, yu)
       run.violate("unfold_preserves", key, {"model": spec_desc(tname, spec), "x": [float(v) for v in x.ravel()],
@@ -1075,6 +1308,8 @@ def stream_unfold(run, tf, qkeras, rng, tier):
       run.count("clause:unfold_preserves:bit-equal")
     if not struct_ok:
       run.violate("unfold_weights", key, {"model": spec_desc(tname, spec), "why": why}, mirrored=False)
+    else:
+      run.count("clause:unfold_weights:all-variables-equal")
     if cfg_bad:
       run.violate("unfold_config", key, {"model": spec_desc(tname, spec),
                                          "layers (entry: folded value, unfolded value)": cfg_bad}, mirrored=False)
@@ -1881,7 +2116,12 @@ def run(run: core.Run, tier: str):
       "other argument forms and five inference routes; exact regime (eps=2^-10, var=4^j-eps, short dyadic gamma incl. 0 and negative) "
       "compared bit for bit with the Lean model, float regime (log-uniform variances 1e-7..20 incl. 0, zero gammas) within "
       "the stated tolerance / outside the breakpoint band.  unfold stream: 7 templates incl. same-class chains with "
-      "different quantizer options per layer, each model object unfolded as built and again after set_weights.  "
+      "different quantizer options per layer, each model object unfolded as built and again after set_weights; plus the "
+      "'frozen' family: 6 templates mixing folded layers with Conv2D / DepthwiseConv2D / Dense / QConv2D / QDense / "
+      "BatchNormalization (affine-free included), every variable random, x freeze plan {layers, layers at construction, "
+      "model, model but one layer, none}, the plan CHANGED and all variables replaced (layer.set_weights / model.set_weights / "
+      "variable.assign) before the second unfolding; every variable of every layer of the unfolded model compared with the "
+      "expectation, the source layer and the Lean layer-list model (unfoldLayers).  "
       "history stream: one layer object in one model object, random and fixed sequences of {get_folded_weights, "
       "unfold_model, inference by 9 routes} and {assign per variable, set_weights layer/model route with same/other "
       "iteration, save->load_weights h5/tf, _iteration set, a real training step, quantizer attributes replaced}, every "
@@ -1898,5 +2138,6 @@ def run(run: core.Run, tier: str):
                          "read back and handed to the model (training path not modelled)")
   stream_layers(run, tf, qkeras, rng, tier)
   stream_unfold(run, tf, qkeras, rng, tier)
+  stream_unfold(run, tf, qkeras, np.random.default_rng([run.seed, 158]), tier, family="frozen")
   stream_to_folded(run, tf, qkeras, rng, tier)
   stream_history(run, tf, qkeras, np.random.default_rng([run.seed, 15]), tier)
